@@ -41,6 +41,8 @@ type c06Case struct {
 	From    string            `json:"from,omitempty"`
 	To      string            `json:"to,omitempty"`
 	Rel     bool              `json:"relative_percentages,omitempty"`
+	Out     string            `json:"out,omitempty"`   // agg: top | traces
+	Flags   []string          `json:"flags,omitempty"` // agg: granularity / -noinlines
 }
 
 // ---------- token helpers ----------
@@ -1086,6 +1088,226 @@ func c06TopEval(c *Ctx, cs c06Case, got, errs string) {
 	}
 }
 
+// ---------- aggregating outputs: -top / -traces with every granularity and -noinlines ----------
+//
+// aggregate() erases file names (default granularity), function names (-files), inlined lines
+// (-noinlines) … AFTER the filters have run. The kept samples must therefore be those the rule
+// selects on the un-aggregated profile, whatever the output format does to the names afterwards.
+
+var topLineRx = regexp.MustCompile(`Showing nodes accounting for (\S+), .* of (\S+) total`)
+
+const tracesSep = "-----------+-------------------------------------------------------"
+
+func runPprofAgg(pprofBin, dir string, idx int, p *profile.Profile, cs c06Case) (string, string) {
+	in := filepath.Join(dir, fmt.Sprintf("agg-%d.pb.gz", idx))
+	f, err := os.Create(in)
+	if err != nil {
+		return "", "harness: " + err.Error()
+	}
+	if err := p.Write(f); err != nil {
+		f.Close()
+		return "", "harness: " + err.Error()
+	}
+	f.Close()
+	defer os.Remove(in)
+	args := []string{"-" + cs.Out, "-symbolize=none", "-nodefraction=0", "-edgefraction=0", "-nodecount=0"}
+	if cs.Rel {
+		args = append(args, "-relative_percentages")
+	}
+	args = append(args, cs.Flags...)
+	for _, k := range c06CliOpts {
+		if v := cs.Opts[k]; v != "" {
+			args = append(args, "-"+k+"="+v)
+		}
+	}
+	args = append(args, in)
+	cmd := exec.Command(pprofBin, args...)
+	cmd.Env = append(os.Environ(), "PPROF_BINARY_PATH="+filepath.Join(dir, "nobin"), "PPROF_TMPDIR="+dir, "HOME="+dir)
+	var stdout, stderr bytes.Buffer
+	cmd.Stdout, cmd.Stderr = &stdout, &stderr
+	if err := cmd.Run(); err != nil {
+		return "", "exit: " + trunc(stderr.String())
+	}
+	return stdout.String(), ""
+}
+
+// parseTraces: one entry "value/frames" per printed sample.
+func parseTraces(out string) []string {
+	var res []string
+	blocks := strings.Split(out, tracesSep+"\n")
+	for _, b := range blocks[1:] {
+		val, n := "", 0
+		for _, ln := range strings.Split(b, "\n") {
+			if len(ln) < 13 || ln[10] != ' ' { // label lines have ':' in column 10
+				continue
+			}
+			if n == 0 {
+				val = strings.TrimSpace(ln[:10])
+			}
+			n++
+		}
+		if n > 0 { // the output ends with a separator: the last block is empty
+			res = append(res, fmt.Sprintf("%s/%d", val, n))
+		}
+	}
+	return res
+}
+
+func hasFlag(fs []string, f string) bool {
+	for _, x := range fs {
+		if x == f {
+			return true
+		}
+	}
+	return false
+}
+
+func c06AggEval(c *Ctx, cs c06Case, out, errs string) {
+	p, err := ParseCanon(cs.Profile)
+	if err != nil {
+		c.Res.HarnessError = "ParseCanon: " + err.Error()
+		return
+	}
+	if strings.HasPrefix(errs, "harness") {
+		c.Res.HarnessError = errs
+		return
+	}
+	ot, ok := optsTok(cs.Opts, p)
+	if !ok {
+		return
+	}
+	rep := c.Drv.Ask("apply.model " + ot + " " + cs.Profile)
+	if rep == "err" || rep == "panic" {
+		if errs == "" {
+			c.Disagree("C06/agg-model/model-"+rep+"-cli-ok", "model rejects the options, pprof accepts them", "correspondence compileTagFilter model ~ pprof", cs)
+		}
+		return
+	}
+	i := strings.Index(rep, " | ")
+	if !strings.HasPrefix(rep, "ok ") || i < 0 {
+		c.Disagree("C06/agg-model/"+firstWord(rep), trunc(rep), "correspondence applyFocus model ~ pprof", cs)
+		return
+	}
+	// the rule's result on the UN-aggregated profile (model = rule: theorem name_filter_rule)
+	q, err := ParseCanon(rep[3:i])
+	if err != nil {
+		c.Disagree("C06/agg-model/unreadable", trunc(rep), "driver", cs)
+		return
+	}
+	c.Res.ModelCompared++
+	tag := cs.Out + strings.Join(cs.Flags, "")
+	if cs.Rel {
+		tag += "-relative_percentages"
+	}
+	if errs != "" {
+		c.Violation("C06/agg/"+cs.Out+"/"+firstWord(errs), "pprof -"+cs.Out+" with filter options fails: "+errs, cs)
+		return
+	}
+	col := len(p.SampleType) - 1
+	noinl := hasFlag(cs.Flags, "-noinlines")
+	var want []string
+	var acc, totAll, totKept int64
+	for _, sm := range p.Sample {
+		totAll += sm.Value[col]
+	}
+	for _, sm := range q.Sample {
+		totKept += sm.Value[col]
+		if len(sm.Location) == 0 {
+			continue
+		}
+		acc += sm.Value[col]
+		n := 0
+		for _, l := range sm.Location {
+			if noinl || len(l.Line) == 0 {
+				n++
+			} else {
+				n += len(l.Line)
+			}
+		}
+		want = append(want, fmt.Sprintf("%d/%d", sm.Value[col], n))
+	}
+	switch cs.Out {
+	case "traces":
+		got := parseTraces(out)
+		if strings.Join(got, " ") != strings.Join(want, " ") {
+			c.Violation("C06/agg/traces/kept-samples", fmt.Sprintf("pprof -traces %v %v relative_percentages=%v prints samples (value/frames) %v, the rule on the un-aggregated profile keeps %v", cs.Flags, cs.Opts, cs.Rel, got, want), cs)
+		}
+	case "top":
+		m := topLineRx.FindStringSubmatch(out)
+		if m == nil {
+			c.Violation("C06/agg/top/no-total-line", trunc(out), cs)
+			return
+		}
+		wantTot := totAll
+		if cs.Rel {
+			wantTot = totKept
+		}
+		if m[1] != fmt.Sprint(acc) || m[2] != fmt.Sprint(wantTot) {
+			c.Violation("C06/agg/top/totals", fmt.Sprintf("pprof -top %v %v relative_percentages=%v reports 'accounting for %s … of %s total'; the rule on the un-aggregated profile gives %d of %d", cs.Flags, cs.Opts, cs.Rel, m[1], m[2], acc, wantTot), cs)
+		}
+	}
+	_ = tag
+}
+
+// genRxTargeted: an expression that matches ONLY a source file name, only a mapping (binary)
+// name, or only the name of a function that occurs as an inlined (non-outermost) frame.
+func genRxTargeted(r *Rng, p *profile.Profile) (string, string) {
+	var files, maps, inl []string
+	for _, f := range p.Function {
+		if f.Filename != "" {
+			files = append(files, f.Filename)
+		}
+	}
+	for _, m := range p.Mapping {
+		maps = append(maps, m.File)
+	}
+	outer := map[string]bool{}
+	for _, l := range p.Location {
+		if n := len(l.Line); n > 0 {
+			outer[l.Line[n-1].Function.Name] = true
+		}
+	}
+	for _, l := range p.Location {
+		for i := 0; i+1 < len(l.Line); i++ {
+			if n := l.Line[i].Function.Name; !outer[n] {
+				inl = append(inl, n)
+			}
+		}
+	}
+	if len(inl) == 0 {
+		for _, l := range p.Location {
+			for i := 0; i+1 < len(l.Line); i++ {
+				inl = append(inl, l.Line[i].Function.Name)
+			}
+		}
+	}
+	pick := func(ss []string) string {
+		ss = uniq(ss)
+		e := "^" + regexp.QuoteMeta(ss[r.Intn(len(ss))]) + "$"
+		if r.Chance(30) {
+			e = "^(" + regexp.QuoteMeta(ss[r.Intn(len(ss))]) + "|" + regexp.QuoteMeta(ss[r.Intn(len(ss))]) + ")$"
+		}
+		return e
+	}
+	for k := 0; k < 6; k++ {
+		switch r.Intn(5) {
+		case 0, 1:
+			if len(files) > 0 {
+				return pick(files), "file-name-only"
+			}
+		case 2:
+			if len(maps) > 0 {
+				return pick(maps), "mapping-name-only"
+			}
+		default:
+			if len(inl) > 0 {
+				return pick(inl), "inlined-frame-name"
+			}
+		}
+	}
+	return genRx(r, fnNames(p)), "grammar"
+}
+
 // ---------- generators ----------
 
 var c06Names = []string{"sa", "sb", "fa", "fb", "ha", "hb", "main", "m.run", "lib.foo", "lib.bar(int)", "std::v<int>::p", "x"}
@@ -1613,6 +1835,20 @@ func runC06Case(c *Ctx, cs c06Case) {
 		}
 		defer os.RemoveAll(dir)
 		c06CliEval(c, cs, runPprofProto(c.Pprof, dir, 0, p, cs.Opts))
+	case "agg":
+		p, err := ParseCanon(cs.Profile)
+		if err != nil {
+			c.Res.HarnessError = err.Error()
+			return
+		}
+		dir, err := os.MkdirTemp("", "pv-c06-")
+		if err != nil {
+			c.Res.HarnessError = err.Error()
+			return
+		}
+		defer os.RemoveAll(dir)
+		out, errs := runPprofAgg(c.Pprof, dir, 0, p, cs)
+		c06AggEval(c, cs, out, errs)
 	case "top":
 		p, err := ParseCanon(cs.Profile)
 		if err != nil {
@@ -1633,7 +1869,7 @@ func runC06Case(c *Ctx, cs c06Case) {
 }
 
 func runC06(c *Ctx) {
-	c.Res.Rule = "profiles with inlined multi-line locations, shared locations, unsymbolized locations, empty stacks, mapping files and labels with units; expressions from a grammar (literal, anchored, alternation, class, substring, match-all, match-none, case-insensitive; numeric ranges a, a:, :b, a:b with signs and units, key=…); streams: name filters (all 16 on/off combinations of focus/ignore/hide/show), focus=R/ignore=R partition, show_from (main stream = inputs satisfying the hypothesis of showFrom_spec_partial, the rest on the known-finding stream), tagshow/taghide, FilterSamplesByTag with label predicates, measurement.Scale, `pprof -proto` with 1–4 of the 9 filter options (plus a unit grid for tagfocus/tagignore: range forms a, a:, :a, a:b × unit pairs same/finer/coarser/none/unknown/cross-family × label values at, just below, just above and halfway between multiples of the coarser unit), and `pprof -top` with and without -relative_percentages (which total the header reports). non-trivial = some expression of the case matches at least one but not all locations in use (name/show_from/cli), some but not all label keys (tags), or the predicate selects some but not all samples (bytag); distinct by options + canonical profile"
+	c.Res.Rule = "profiles with inlined multi-line locations, shared locations, unsymbolized locations, empty stacks, mapping files and labels with units; expressions from a grammar (literal, anchored, alternation, class, substring, match-all, match-none, case-insensitive; numeric ranges a, a:, :b, a:b with signs and units, key=…); streams: name filters (all 16 on/off combinations of focus/ignore/hide/show), focus=R/ignore=R partition, show_from (main stream = inputs satisfying the hypothesis of showFrom_spec_partial, the rest on the known-finding stream), tagshow/taghide, FilterSamplesByTag with label predicates, measurement.Scale, `pprof -proto` with 1–4 of the 9 filter options (plus a unit grid for tagfocus/tagignore: range forms a, a:, :a, a:b × unit pairs same/finer/coarser/none/unknown/cross-family × label values at, just below, just above and halfway between multiples of the coarser unit), `pprof -top` with and without -relative_percentages (which total the header reports), and `pprof -top`/`-traces` through every granularity (default, functions, filefunctions, files, lines, addresses) and -noinlines with focus/ignore/hide/show expressions that match only a source file name, only a mapping name or only an inlined frame (kept samples and totals must be the rule's on the un-aggregated profile). non-trivial = some expression of the case matches at least one but not all locations in use (name/show_from/cli), some but not all label keys (tags), or the predicate selects some but not all samples (bytag); distinct by options + canonical profile"
 	if c.Replay != "" {
 		var cs c06Case
 		if err := c.LoadReplay(&cs); err != nil {
@@ -1919,5 +2155,58 @@ func runC06(c *Ctx) {
 			c.Res.Hit("top:filtered-total-differs-from-unfiltered")
 		}
 		c06TopEval(c, cs, tgot[i][0], tgot[i][1])
+	}
+	// ---- aggregating outputs (-top / -traces, every granularity, -noinlines), both percentage modes
+	nAgg := 260 * c.Scale
+	acases := make([]c06Case, nAgg)
+	aprofs := make([]*profile.Profile, nAgg)
+	grans := [][]string{nil, nil, {"-functions"}, {"-filefunctions"}, {"-files"}, {"-lines"}, {"-addresses"}}
+	for i := range acases {
+		p := genC06Profile(r, true)
+		var buf bytes.Buffer
+		p.Write(&buf)
+		p, err = profile.ParseData(buf.Bytes())
+		if err != nil {
+			c.Res.HarnessError = "generated profile does not round-trip: " + err.Error()
+			return
+		}
+		opts := map[string]string{}
+		k := []string{"focus", "ignore", "hide", "show", "focus", "ignore"}[i%6]
+		e, kind := genRxTargeted(r, p)
+		opts[k] = e
+		if r.Chance(25) {
+			k2 := []string{"focus", "ignore", "hide", "show"}[r.Intn(4)]
+			if opts[k2] == "" {
+				opts[k2], _ = genRxTargeted(r, p)
+			}
+		}
+		flags := append([]string(nil), grans[r.Intn(len(grans))]...)
+		if r.Chance(40) {
+			flags = append(flags, "-noinlines")
+		}
+		acases[i] = c06Case{Kind: "agg", Stream: "main", Profile: Canon(p), Opts: opts, Rel: i%4 >= 2, Out: []string{"traces", "top"}[i%2], Flags: flags}
+		aprofs[i] = p
+		c.Res.Hit("agg:expr:" + kind)
+		c.Res.Hit("agg:" + acases[i].Out + ":" + strings.Join(flags, "") + fmt.Sprintf(":rel=%v", acases[i].Rel))
+	}
+	aout := make([][2]string, nAgg)
+	for i := range acases {
+		wg.Add(1)
+		sem <- struct{}{}
+		go func(i int) {
+			defer wg.Done()
+			defer func() { <-sem }()
+			o, e := runPprofAgg(c.Pprof, dir, i, aprofs[i], acases[i])
+			aout[i] = [2]string{o, e}
+		}(i)
+	}
+	wg.Wait()
+	for i, cs := range acases {
+		nameOpts := map[string]string{}
+		for k, v := range cs.Opts {
+			nameOpts[k] = v
+		}
+		c.Res.Count(caseKey(cs)+fmt.Sprint(cs.Rel, cs.Out, cs.Flags), c06Stats(c, aprofs[i], nameOpts))
+		c06AggEval(c, cs, aout[i][0], aout[i][1])
 	}
 }
